@@ -124,6 +124,8 @@ var misuseTemplates = []struct{ class, src string }{
 	{"compare-composite", "arr == arr"}, {"compare-composite", "[1] == [1]"}, {"compare-composite", "m == m"}, {"compare-composite", "m != m"}, {"compare-composite", "arr === arr"}, {"compare-composite", "m !== m"},
 	{"compare-composite", "[1] != [2]"}, {"compare-composite", "[] === []"}, {"compare-composite", "m == this"}, {"compare-composite", "m.b == m.b"}, {"compare-composite", "arr == [1]"}, {"compare-composite", "this === this"},
 	{"missing-struct-field", "st.Z"}, {"missing-struct-field", "st.missing"}, {"missing-struct-field", "st.a"}, {"missing-struct-field", "st.Z.k"}, {"missing-struct-field", "st!.Z"}, {"missing-struct-field", "[st.Z]"},
+	{"missing-struct-field", "se.nope"}, {"missing-struct-field", "mu.nope"}, {"missing-struct-field", "se.nope ?? 'x'"}, {"missing-struct-field", "typeof mu.missing"},
+	{"missing-struct-field", "[se.Name, se.zz]"}, {"missing-struct-field", "mu.L + mu.r"},
 	{"assert-null", "z!.k"}, {"assert-null", "nilp!.k"}, {"assert-null", "m.missing!.k"}, {"assert-null", "undefinedname!.a"},
 	{"host-error", "ferr(1)"}, {"host-error", "1 + ferr(2)"}, {"host-error", "[ferr(1)]"}, {"host-error", "fid(ferr(1))"},
 	{"bad-assignment", "n0 = 1"}, {"bad-assignment", "m.k = 1"}, {"bad-assignment", "1 = 2"}, {"bad-assignment", "($v) = 1"},
